@@ -248,7 +248,7 @@ PROPS = {
                      "agree_own", "agree_own2", "envOf_indicator", "eval_congr2_term", "eval_congr2_fml", "reachable_wf",
                      "InCoreS.of_reachable", "Exact_ex_inCoreS", "busy_le", "Exact_ex2_inCoreS", "multi_extend", "C05_feasible_iff_multi", "Multi_ex_inCoreS", "fragmentMultiB_sound",
                      "C05_feasible_iff_clean", "C05_sound_groups", "C05_complete_groups", "C05_feasible_iff_groups",
-                     "fragmentGroupsB_sound", "Groups_ex_model"],
+                     "fragmentGroupsB_sound", "Groups_ex_model", "C05_feasible_iff_groups_multi", "fragmentGroupsMultiB_sound"],
         "modules": ["Exact", "Multi", "CleanSpec", "Groups"],
         "profiles": [("all", 0.3), ("frag", 0.2), ("resc", 0.1), ("fol", 0.15), ("focus_resc", 0.15), ("focus_taskc", 0.1)],
         "relevant": lambda o: True,
@@ -298,8 +298,8 @@ PROPS = {
     "C07": {
         "theorems": ["incLoop_spec", "C07_anytime", "C07_optimal", "incLoop_bound", "C07_bound_stop", "C07_weighted",
                      "C07_weighted_goal", "C07_core_attainable", "C07_core_lower_bound", "C07_weighted_attainable",
-                     "C07_optimal_valid", "C07_groups_attainable"],
-        "modules": ["Exact", "Multi", "C07V", "Groups"],
+                     "C07_optimal_valid", "C07_groups_attainable", "C07_optimal_valid_groups"],
+        "modules": ["Exact", "Multi", "C07V", "Groups", "GroupsV"],
         "profiles": [("obj", 1.0)],
         "relevant": lambda o: owner_in(o, ("objective", "indicator:")),
         "spec": None,
@@ -322,8 +322,8 @@ PROPS = {
     },
     "C12": {
         "theorems": ["blockingClause_eval", "C12_distinct", "C12_exhaustive", "C12_variable", "C13_base",
-                     "C12_exhaustive_valid", "C12_returned_valid"],
-        "modules": ["C12V"],
+                     "C12_exhaustive_valid", "C12_returned_valid", "C12_exhaustive_valid_groups", "C12_returned_valid_groups"],
+        "modules": ["C12V", "GroupsV"],
         "profiles": [("core", 1.0)],
         "relevant": lambda o: False,
         "spec": None,
@@ -429,8 +429,8 @@ PROPS = {
         "theorems": ["C14_fresh_problem", "C14_run_after_problem", "C14_valid_order_free", "C05_complete_core",
                      "C14_core_verdict", "C14_core_schedules", "Valid_iff_clean2", "ValidClean2_renumber", "Valid_renumber",
                      "C14_tasks_order_verdict", "CoreMeaning_renumTasks", "Renum_ex_same", "Renum_ex_verdict",
-                     "CoreMeaning_sameUpTo", "numbersIntoB_sound", "tasksOrderTheoremB_sound"],
-        "modules": ["Exact", "Renumber"],
+                     "CoreMeaning_sameUpTo", "numbersIntoB_sound", "tasksOrderTheoremB_sound", "C14_groups_verdict"],
+        "modules": ["Exact", "Renumber", "Groups"],
         "profiles": [("all", 0.45), ("core", 0.2), ("obj", 0.15), ("buffer", 0.2)],
         "relevant": lambda o: True,
         "spec": None,
